@@ -860,6 +860,8 @@ func ruleC11R3(r *Run) {
 				}
 				r.Check(construct, cs.Instr.Pos(), okc && !persist && reseeded, "stream shared by the iterations does not record and is re-initialised in every iteration",
 					fmt.Sprintf("a stream object is shared between test cases (persist=%v, re-initialised per iteration=%v): recorded bits / PRNG state of one test case leak into the next", persist, reseeded))
+			case isParamWithFreshArgs(p, s):
+				r.OK(construct, cs.Instr.Pos(), "stream is a parameter of a wrapper; every caller passes a stream created for that call")
 			case strings.HasSuffix(p.expr(s), ".s"):
 				r.OK(construct, cs.Instr.Pos(), "nested T of a Custom generator shares the stream of the T it is drawn from (same test case) by design")
 			default:
@@ -868,4 +870,55 @@ func ruleC11R3(r *Run) {
 		}
 	}
 	r.Floor("newT call sites with a stream", n, 10)
+}
+
+// isParamWithFreshArgs: v is a parameter and every call site of its function passes a freshly constructed stream.
+func isParamWithFreshArgs(p *Program, v ssa.Value) bool {
+	par, ok := v.(*ssa.Parameter)
+	if !ok {
+		return false
+	}
+	fn := par.Parent()
+	ci := p.callerIndex()[fn]
+	if ci == nil || ci.valueUse || len(ci.sites) == 0 {
+		return false
+	}
+	idx := -1
+	for k, q := range fn.Params {
+		if q == par {
+			idx = k
+		}
+	}
+	for _, site := range ci.sites {
+		if idx < 0 || idx >= len(site.Common().Args) {
+			return false
+		}
+		c, ok := p.resolve(site.Common().Args[idx]).(*ssa.Call)
+		if !ok {
+			return false
+		}
+		k := p.calleeKey(c.Common())
+		if k != "newBufBitStream" && k != "newRandomBitStream" {
+			return false
+		}
+		n := 0
+		for _, u := range usesOf(p, c) {
+			if _, isCall := u.(ssa.CallInstruction); isCall {
+				n++
+			}
+		}
+		if n > 1 {
+			// the same stream object handed to more than one call
+			uses := 0
+			for _, u := range usesOf(p, c) {
+				if ci2, ok := u.(ssa.CallInstruction); ok && ci2.Common().StaticCallee() != nil && p.fnName(ci2.Common().StaticCallee()) == p.fnName(fn) {
+					uses++
+				}
+			}
+			if uses > 1 {
+				return false
+			}
+		}
+	}
+	return true
 }
